@@ -147,7 +147,8 @@ class ServeHarness:
                     s.listen(self.config.backlog)
 
                 async def main():
-                    await worker_serve(app, self.config, sockets=self.sockets, shutdown_trigger=self._trigger)
+                    # (no_trigger: serve() as the public API starts it by default, with nothing but its own reasons to stop)
+                    await worker_serve(app, self.config, sockets=self.sockets, shutdown_trigger=None if getattr(self, "no_trigger", False) else self._trigger)
 
                 trio.run(main)
             self.result = "returned"
